@@ -282,6 +282,18 @@ def box(n, width):
 def run(x):
     return box(2, x % 5)
 '''),
+    ("N19 keyword call of a same-module function made positional", "calls_made_positional", '''
+def build(face_nodes, n_face, n_max=3, tag="t"):
+    return (list(face_nodes), n_face, n_max, tag)
+def run(x):
+    log = []
+    def ev(v):
+        log.append(v); return v
+    a = build(face_nodes=[x], n_face=2, n_max=5)
+    b = build([x], n_face=ev(1), n_max=ev(2))
+    c = build(n_face=1, face_nodes=[0])          # not in parameter order: left alone
+    return [a, b, c, log]
+'''),
 ]
 
 
